@@ -46,27 +46,28 @@ type c16Case struct {
 	Primer string `json:"primer"` // detection executed just before (same pooled state)
 	// Shape "repeat": Unit repeated Depth times, then Tail (no nesting at all: the
 	// statement bounds ANY recursion during detection by a fixed depth)
-	Unit []byte `json:"unit,omitempty"`
-	Tail string `json:"tail,omitempty"`
+	Unit   []byte `json:"unit,omitempty"`
+	Tail   string `json:"tail,omitempty"`
+	Prefix string `json:"prefix,omitempty"`
 }
 
 func (k c16Case) refKey() string {
 	if k.Shape == "repeat" {
-		return "repeat|" + string(k.Unit)
+		return "repeat|" + k.Prefix + "|" + string(k.Unit)
 	}
 	return k.Shape
 }
 
 func (k c16Case) key() string {
 	if k.Shape == "repeat" {
-		return fmt.Sprintf("repeat unit=%q x %d tail=%q mode=%s", k.Unit, k.Depth, k.Tail, k.Mode)
+		return fmt.Sprintf("repeat prefix=%q unit=%q x %d tail=%q mode=%s", k.Prefix, k.Unit, k.Depth, k.Tail, k.Mode)
 	}
 	return fmt.Sprintf("bomb shape=%s depth=%d closed=%v mode=%s primer=%s", k.Shape, k.Depth, k.Closed, k.Mode, k.Primer)
 }
 
 func c16Doc(k c16Case) []byte {
 	if k.Shape == "repeat" {
-		return append(bytes.Repeat(k.Unit, k.Depth), k.Tail...)
+		return append(append([]byte(k.Prefix), bytes.Repeat(k.Unit, k.Depth)...), k.Tail...)
 	}
 	var sh c16Shape
 	for _, s := range c16Shapes {
@@ -224,7 +225,7 @@ func c16Judge(c *fw.Ctx, k c16Case, refKB map[string]int64, doc []byte) {
 		c.Distinct(fmt.Sprintf("%s|%d|%v|%s|%s", k.Shape, k.Depth, k.Closed, k.Mode, k.Primer))
 	}
 	if k.Shape == "repeat" && k.Depth > 8192 {
-		c.Distinct(fmt.Sprintf("repeat|%q|%s|%s", k.Unit, k.Tail, k.Mode))
+		c.Distinct(fmt.Sprintf("repeat|%q|%q|%s|%s", k.Prefix, k.Unit, k.Tail, k.Mode))
 	}
 	if c.WantSample() && c.Rand.Intn(10) == 0 {
 		c.Sample(map[string]any{"case": k, "input_bytes": len(doc), "result": out.chain.String(), "stack_increment_KiB": out.incKB})
@@ -267,8 +268,36 @@ func c16Repeats(c *fw.Ctx, b fw.Batch) {
 			units = append(units, t)
 		}
 	}
-	lo, hi := split(len(units), b.Idx, b.Of)
 	refKB := map[string]int64{}
+	if b.Idx == b.Of-1 {
+		// units repeated INSIDE a construct: escape sequences inside one JSON string, elements of
+		// one array, members of one object, attributes of one tag, dashes of one comment, rows
+		// of one table, doubled quotes of one CSV cell (a scanner that calls itself "for the rest")
+		framed := [][3]string{{`["`, `\n`, `"]`}, {`["`, `\u0041`, `"]`}, {`["`, `\\`, `"]`}, {`["`, `\"`, `"]`}, {`{"`, `\t`, `":1}`}, {`[`, `1,`, `1]`}, {`[`, `"a",`, `"a"]`}, {`[`, `{},`, `{}]`}, {`{"a":"b"`, `,"a":"b"`, `}`},
+			{`<!--`, `-`, `-->`}, {`<!--`, `--`, `>`}, {`<html `, `a=b `, `>`}, {`<meta `, `charset `, `>`}, {`<meta content="`, `charset `, `">`}, {`<?xml `, `a="b" `, `?>`}, {`<a>`, `&amp;`, `</a>`},
+			{"a,b\n", "1,2\n", ""}, {"a\tb\n", "1\t2\n", ""}, {`a,"`, `""`, "\"\n1,2\n"}, {"{\"a\":1}\n", "[1]\n", ""}, {"#!/bin/sh\n", "#\n", ""}, {"BEGIN:VCARD\n", "N:x\n", "END:VCARD\n"}, {"WEBVTT\n\n", "1\n", ""}}
+		for _, fr := range framed {
+			u := []byte(fr[1])
+			rk := c16Case{Shape: "repeat", Prefix: fr[0], Unit: u, Tail: fr[2], Depth: 8192, Mode: "limit0", Primer: "none"}
+			out := c16Exec(rk, c16Doc(rk))
+			runtime.GC()
+			refKB[rk.refKey()] = out.incKB
+			if refKB[rk.refKey()] < 64 {
+				refKB[rk.refKey()] = 64
+			}
+			n := size / len(u)
+			for _, tail := range []string{fr[2], ""} {
+				doc := c16Doc(c16Case{Shape: "repeat", Prefix: fr[0], Unit: u, Depth: n, Tail: tail})
+				for _, mode := range []string{"limit0", "reader0"} {
+					if c.Tier != "thorough" && mode == "reader0" && tail == "" {
+						continue
+					}
+					c16Judge(c, c16Case{Shape: "repeat", Prefix: fr[0], Unit: u, Depth: n, Tail: tail, Mode: mode, Primer: "none"}, refKB, doc)
+				}
+			}
+		}
+	}
+	lo, hi := split(len(units), b.Idx, b.Of)
 	for _, u := range units[lo:hi] {
 		rk := c16Case{Shape: "repeat", Unit: u, Depth: 8192, Mode: "limit0", Primer: "none"}
 		out := c16Exec(rk, c16Doc(rk))
@@ -338,7 +367,7 @@ func init() {
 	fw.Register(&fw.Prop{
 		ID:    "C16",
 		Level: "exploration",
-		Rule: "bombs = 8 nesting shapes ('[', '{\"k\":', '[{\"k\":', whitespace-padded, with earlier members, newline-separated) x depths 10 … 10^6 (10^7 thorough) x closed/unclosed x 6 modes (Detect limit 0, limit 2^31, limit = len, limit = len/2, DetectReader limit 0, as one line of an NDJSON stream) x 7 primer detections executed just before on the same pooled parser state (GOMAXPROCS=1, GC off: the pooled state really is reused). Repeats = ~75 non-nesting units (BOMs, white space, markup / comment openers, separators, magic numbers) and literals drawn from the source of the tree under test, each repeated to 6 MiB (24 MiB thorough), alone and followed by '[1]' / 'x', through Detect with limit 0 / 2^31 and DetectReader: any recursion whose depth follows the input overflows the 64 MiB stack or breaks the plateau. Each bomb runs in its own goroutine in a child whose maximum stack is 64 MiB. " +
+		Rule: "bombs = 8 nesting shapes ('[', '{\"k\":', '[{\"k\":', whitespace-padded, with earlier members, newline-separated) x depths 10 … 10^6 (10^7 thorough) x closed/unclosed x 6 modes (Detect limit 0, limit 2^31, limit = len, limit = len/2, DetectReader limit 0, as one line of an NDJSON stream) x 7 primer detections executed just before on the same pooled parser state (GOMAXPROCS=1, GC off: the pooled state really is reused). Repeats = ~75 non-nesting units (BOMs, white space, markup / comment openers, separators, magic numbers) and literals drawn from the source of the tree under test, each repeated to 6 MiB (24 MiB thorough), alone and followed by '[1]' / 'x', through Detect with limit 0 / 2^31 and DetectReader; the same inside one construct (escape sequences of one JSON string, elements of one array, attributes of one tag, dashes of one comment, rows of one table, doubled quotes of one cell): any recursion whose depth follows the input overflows the 64 MiB stack or breaks the plateau. Each bomb runs in its own goroutine in a child whose maximum stack is 64 MiB. " +
 			"non-trivial = depth >= 8192 (twice the cap); distinct = distinct (shape, depth, closed, mode, primer).",
 		Assumptions: []string{
 			"a fatal stack overflow kills the child; the supervisor re-runs the batch in trace mode and pins the case",
@@ -366,7 +395,7 @@ func init() {
 			debug.SetMaxStack(64 << 20)
 			runtime.GOMAXPROCS(1)
 			ref := map[string]int64{}
-			rk := c16Case{Shape: k.Shape, Unit: k.Unit, Depth: 8192, Closed: true, Mode: "limit0", Primer: "none"}
+			rk := c16Case{Shape: k.Shape, Unit: k.Unit, Prefix: k.Prefix, Tail: k.Tail, Depth: 8192, Closed: true, Mode: "limit0", Primer: "none"}
 			ref[k.refKey()] = c16Exec(rk, c16Doc(rk)).incKB
 			if ref[k.refKey()] < 64 {
 				ref[k.refKey()] = 64
